@@ -292,7 +292,7 @@ pub fn interface(attr: TokenStream, item: TokenStream) -> TokenStream {
             ) -> Result<(), ::microscpi::Error> {
                 use ::microscpi::Response;
                 match command_id {
-                    #(#command_items),*,
+                    #(#command_items,)*
                     _ => Err(::microscpi::Error::UndefinedHeader)
                 }
            }
